@@ -29,6 +29,14 @@ SUMMARY = {
  'C17-agent1': 'init uploads the config before the private key section is encrypted: rejected nonce sizes leave a config behind',
  'C18-agent1': 'cached entry checked with truthiness: an empty cache entry skips verification and is parsed',
  'C18-agent2': 'cache entries written through a fixed `<entry>.tmp` name: two clients sharing a cache race on it',
+ 'C04-agent3': 'snapshot loader stores a downloaded snapshot in the cache before verifying it and no longer re-hashes cache hits',
+ 'C06-agent3': 'blake2b.derive truncates key material to 64 bytes: a BLAKE2b-KDF key unlocks with any pass-phrase sharing the first 64 bytes',
+ 'C07-agent3': 'per-snapshot cache of existence checks invalidated with the wrong key: every later occurrence of a new chunk is uploaded again',
+ 'C13-agent3': 'Local temporary is a predictable `.name.tmp`: two overlapping uploads of one name share it, a half-written file gets published',
+ 'C15-agent3': 'AEAD adapter remembers the last decryption key/cipher without a lock: loader threads decrypt with the wrong cipher, snapshot silently treated as foreign',
+ 'C16-agent3': 'SigV4 signing key cached until a locally computed end of day: west of UTC the old key signs requests after UTC midnight',
+ 'C17-agent3': 'same truncation of BLAKE2b key material as C06-agent3 (found independently)',
+ 'C20-agent3': 'limiter releases its lock while sleeping: concurrent streams sleep in parallel and the debt goes deeply negative',
  'C20-agent1': 'transfer block size floor of 16000 bytes: below 32 kB/s each block owes more than the capped debt',
 }
 rows = []
